@@ -109,8 +109,12 @@ fn scores(alg: Alg, k: InformationContentKind, a: &hpo::HpoTerm, b: &hpo::HpoTer
 type V = Option<(String, String, String)>;
 
 pub fn check_ontology(ont: &Ontology, r: &RefOnt, algs: &[Alg], counters: &mut (u64, u64)) -> V {
+    check_ontology_strided(ont, r, algs, counters, 1)
+}
+
+pub fn check_ontology_strided(ont: &Ontology, r: &RefOnt, algs: &[Alg], counters: &mut (u64, u64), stride: usize) -> V {
     let ids: Vec<u32> = r.terms.keys().copied().collect();
-    for &a in &ids {
+    for &a in ids.iter().step_by(stride) {
         for &b in &ids {
             let (ta, tb) = (ont.hpo(a).unwrap(), ont.hpo(b).unwrap());
             for &alg in algs {
@@ -244,6 +248,49 @@ pub fn run(ctx: &mut Ctx) {
                 ctx.outcome(crate::ctx::fnv_str(&format!("{}{}", d.describe(), s)) % 8192);
                 ctx.sample(|| json!({"dag": d.describe(), "ids": ids, "pattern": if s == (1 << n) { "no annotations".to_string() } else { format!("S={:?}", crate::space::bits(s, n)) }}));
             }
+        }
+    }
+    // ---- structured large graphs: ancestor sets beyond 30 ids, long chains, many routes
+    {
+        let family = crate::props::common::large_family();
+        ctx.space("large-structured/patterns-x-pairs", &format!("{} large shapes with genes on the last term / every 7th term, OMIM on the middle and the top term, ORPHA on the last two terms; all ordered pairs x 8 algorithms x 3 kinds (shapes with > 70 terms: every 3rd term as first argument)", family.len()));
+        for (base, what) in &family {
+            if !ctx.take() {
+                continue;
+            }
+            ctx.state();
+            let ids: Vec<u32> = base.terms.iter().map(|t| t.id).collect();
+            let n = ids.len();
+            let mut anns = vec![Facts::ann(Kind::Gene, 11, "GENE1", Some(ids[n - 1])), Facts::ann(Kind::Gene, 33, "GENE3", None)];
+            for i in (0..n).step_by(7) {
+                anns.push(Facts::ann(Kind::Gene, 22, "GENE2", Some(ids[i])));
+            }
+            anns.push(Facts::ann(Kind::Omim, 600_001, "Disease one", Some(ids[n / 2])));
+            anns.push(Facts::ann(Kind::Omim, 600_003, "Disease three", Some(ids[0])));
+            anns.push(Facts::ann(Kind::Omim, 600_002, "Disease two, bare", None));
+            anns.push(Facts::ann(Kind::Orpha, 77, "Orpha one", Some(ids[n - 1])));
+            anns.push(Facts::ann(Kind::Orpha, 78, "Orpha two", Some(ids[n - 2])));
+            anns.push(Facts::ann(Kind::Orpha, 79, "Orpha three, bare", None));
+            let f = Facts { anns, ..base.clone() };
+            // for the biggest shapes restrict the model to keep the case short: check on a sub-model of first arguments
+            let r = RefOnt::derive(&f);
+            ctx.transitions(f.n_steps() + (n * n * 24) as u64);
+            let Ok(ont) = drive::build(&f, Mode::Minimal) else {
+                ctx.exec();
+                ctx.violation("Builder", "[builder] construction fails on valid facts", json!({"shape": what}));
+                continue;
+            };
+            let mut counters = (0u64, 0u64);
+            let stride = if n > 70 { 3 } else { 1 };
+            match guard(|| check_ontology_strided(&ont, &r, &ALGS, &mut counters, stride)) {
+                Ok(None) => {}
+                Ok(Some((site, sig, det))) => ctx.violation(&site, &format!("[large shape] {sig}"), json!({"shape": what, "n_terms": n, "difference": det})),
+                Err(p) => ctx.violation("Similarity::calculate", "[large shape] panics", json!({"shape": what, "observed": p})),
+            }
+            ctx.execs(counters.0);
+            ctx.validateds(counters.0);
+            ctx.nontrivials(counters.1);
+            ctx.sample(|| json!({"shape": what, "n_terms": n}));
         }
     }
     if !thorough {
